@@ -13,6 +13,15 @@ CHECKS = {
     "C19": dict(level="proof", technique=PROOF_TECH, design="DESIGN.md §5 C19",
                 text="sort_as_subsets is proved for every finite graph and item order (67 obligations from the current source): each yielded subset is exactly the ready items in input order, exhaustion emits every item once with predecessors strictly earlier, and exhaustion is impossible while a non-empty pred-closed set exists; at the raise the remaining set is a non-empty pred-closed subset (cycle by the Lean lemma). Bounded complement: same contract on all digraphs <= 3/4 nodes.",
                 note="assumed: finite sequences, value identity for elements; Lean lemma pred_closed_iff_cycle; termination not proved; sort/find_cycles/_gen_edges: see evidence for which are under proof"),
+    "C25": dict(level="proof", technique=PROOF_TECH, design="DESIGN.md §5 C25",
+                text="QueuePool overflow accounting (_inc_overflow/_dec_overflow/_do_get/_do_return_conn/checkedout) and util.queue.Queue (put/get all three blocking modes, _put/_get/_full/_empty) are proved against a slot-accounting invariant slots == pool_size + _overflow <= pool_size + max_overflow and the queue representation invariant, sequentially per critical section, plus a syntactic lock-discipline obligation on every store to _overflow.",
+                note="schedules not explored (monitor reading); assumed contracts on _create_connection, record.close() (Full path) and Condition.wait(); 'one connection never held by two checkouts' beyond the queue contract is not decided; other pool classes not covered"),
+    "C34": dict(level="proof", technique=PROOF_TECH, design="DESIGN.md §5 C34",
+                text="every method of the _WeakInstanceDict container (add, replace, _add_unpresent, get, __getitem__, __contains__, contains_state, fast_get_state, safe_discard, _fast_discard, _manage_incoming/removed_state) is proved against a whole-map postcondition: add never overwrites a live different instance (raises, map unchanged), discards remove only the given state, every other key is untouched.",
+                note="weakref liveness constant during a call (GC-race arms proved unreachable sequentially); loading/Session.get paths and the database are outside the proof (bounded complement)"),
+    "C52": dict(level="proof", technique=PROOF_TECH, design="DESIGN.md §5 C52",
+                text="ScopedRegistry.__call__/has/set/clear are proved against the map view: the current scope's entry is returned or created exactly once, every other scope's entry and the key order are untouched.",
+                note="scopefunc pure within a call; thread interleavings rely on dict atomicity in CPython (assumed, stated); ThreadLocalRegistry and scoped_session wrappers not under proof"),
     "C35": dict(level="proof", technique=PROOF_TECH, design="DESIGN.md §5 C35",
                 text="the five InstanceState lifecycle predicates are proved equal to their documented definitions over (key is None, _attached, _deleted) and the partition (exactly one holds) is a full-domain lemma over those postconditions; native replay on all 8 valuations.",
                 note="transitions and events are not under contract here; `_attached` is read as a boolean attribute"),
